@@ -17,7 +17,8 @@ fn doc_line(rng: &mut Rng, numbers: &[u64]) -> String {
         12 => format!("{} PRINT \"{}\" + 1", n, rng.pick(&["é", "😀", "ab", "日本"])),
         13 => format!(" {} {}", n, gen::simple_statement(rng)),
         14 => format!("{} IF {} THEN {} ELSE {}", n, gen::num_expr(rng, 1), rng.pick(&["100", "PRINT 1", "GOTO 10", "X = \"s\""]), rng.pick(&["20", "PRINT A$", "Y = 1"])),
-        _ => format!("{} {}", n, rng.pick(&["GOTO 99", "GOSUB 10", "NEXT I", "FOR I = 1 TO 3", "FOR A$ = 1 TO 2", "DEF FNA(X) = X + 1", "DEF FNB(X) = \"s\"", "Y = FNA(2)", "PRINT FNA(\"x\")", "INPUT Q", "READ R, S$", "DATA 1, two", "DIM D(5)", "STOP", "END", "RETURN", "LET", "LET 5", "PRINT (1", "PRINT 1 +", "ELSE PRINT 1", "IF 1 THEN", "NEXT", "X = = 1"])),
+        _ => format!("{} {}", n, rng.pick(&["GOTO 99", "GOSUB 10", "NEXT I", "FOR I = 1 TO 3", "FOR A$ = 1 TO 2", "DEF FNA(X) = X + 1", "DEF FNB(X) = \"s\"", "Y = FNA(2)", "PRINT FNA(\"x\")", "INPUT Q", "READ R, S$", "DATA 1, two", "DIM D(5)", "STOP", "END", "RETURN", "LET", "LET 5", "PRINT (1", "PRINT 1 +", "ELSE PRINT 1", "IF 1 THEN", "NEXT", "X = = 1",
+            "DEF", "DEF 5", "DEF FNA(", "DEF FNA(5) = 1", "DEF FNA(X", "DEF FNA(X Y) = 1", "DEF FNA(X,) = 1", "DEF FNA() = 1", "DEF FNA(X) 1", "GOSUB", "GOTO X", "FOR = 1 TO 2", "FOR I = \"a\" TO 2", "DIM", "DIM A()", "READ ,", "INPUT", "INPUT 5", "A(1", "NEXT I, J"])),
     }
 }
 
